@@ -42,14 +42,9 @@ theorem ref_findMatchingNodes (s : Store) (g other : String) :
     Ref g (findMatchingNodes g other s) (AGraph.findMatchingNodes (abs s other) (abs s g)) := by
   unfold findMatchingNodes AGraph.findMatchingNodes
   have h1 := listAll_fst s g
-  have e1 : (abs s other).nodes.any (fun a => !AMap.has nodeId a) = (nodesOf s other).any (fun n => !AMap.has nodeId n.attrs) := by
-    rw [abs_nodes, List.any_map]
-    have : ((fun a => !AMap.has nodeId a) ∘ eraseG) = (fun n => !AMap.has nodeId n.attrs) := by
-      funext n; simp only [Function.comp, has_eraseG nodeId nodeId_ne_graphId]
-    rw [this]
   have e2 : (abs s other).nodes.map (AMap.get nodeId) = (nodesOf s other).map (fun n => AMap.get nodeId n.attrs) := by
     simp [abs_nodes, List.map_map, Function.comp, get_eraseG nodeId nodeId_ne_graphId]
-  rw [e1, e2]
+  rw [e2]
   generalize hr : listAllNodeIds g s = r at h1
   generalize hr' : AGraph.listAllNodeIds (abs s g) = r' at h1
   obtain ⟨r1, r2⟩ := r
@@ -62,9 +57,9 @@ theorem ref_findMatchingNodes (s : Store) (g other : String) :
     cases o with
     | vals mine =>
       simp only
-      split
-      · exact ref_err g s _
-      · exact ⟨rfl, rfl⟩
+      cases fmnErr mine (List.map (fun n => AMap.get nodeId n.attrs) (nodesOf s other)) with
+      | some e => exact ref_err g s _
+      | none => exact ⟨rfl, rfl⟩
     | unit => exact ref_err g s _
     | bool b => exact ref_err g s _
     | nodeProps l p => exact ref_err g s _
